@@ -44,7 +44,7 @@ Two parts, both on the live ``posix.Registry`` / ``asset.Directory`` code (``vol
       crash-listing-neither-before-nor-after            anything else
 
     Sizes: quick = 5 directed + 13 random histories (history part), all crash points of every publish / train of the
-    directed and the first 2 random ones; thorough = 160 random histories, crash part for the first 16, a new-process
+    directed and the first 2 random ones; thorough = 160 random histories, crash part for the first 12, a new-process
     reader for the first 12.  The crash points of one operation are dealt to the shards in chunks (load balance); a
     history is cut short after its first history-part violation (model and registry have diverged).
 
@@ -74,7 +74,7 @@ RULE = (
     'latest/explicit generation with 0-4 states of 0..20000 bytes, read latest/explicit}, each run against posix.Registry (fresh reader '
     'after every step) and volatile.Registry, a third of them ending with an operation that names a release by an equal version of '
     'another normal form, plus five directed minimal histories; crash part: for every publish and every train (dumps + commit) of the '
-    'directed and the first 2 (quick) / 16 (thorough) random posix histories ALL crash points 1..N (N counted by a dry run) are executed, each in a forked child on a '
+    'directed and the first 2 (quick) / 12 (thorough) random posix histories ALL crash points 1..N (N counted by a dry run) are executed, each in a forked child on a '
     'copy of the registry. evaluations = history steps checked + crash points checked. distinct = distinct (registry kind, operation '
     'shape, model state shape) per step and distinct (operation shape, model state shape, crash event descriptor) per crash point; '
     'non-trivial = the step is a publish/train/read on a non-empty registry or a crash point of an operation that mutates the registry'
@@ -754,7 +754,6 @@ class History:
             crashed = [c + o for c, o in zip(crashed, observed)]
         before = normalised(json.loads(json.dumps(before_view)))
         after = normalised(self.expected_after.view())
-        kind = 'train' if op['op'] == 'train' else 'publish_' + op['kind']
         complete = True
         for k, root, outcome, total, view, tree in crashed:
             view = json.loads(json.dumps(view))
@@ -793,7 +792,8 @@ class History:
             ctx.note_set('crash_enumeration', {
                 'exhaustive': complete,
                 'scope': 'per operation: every crash point 1..N (N from a dry run) of every publish and every train (dumps + commit) '
-                         'executed in the sampled posix histories; see counters crash_ops_*, crash_points_*',
+                         'of the crash-enumerated posix histories (counters crash_ops_*, crash_points_*; complete iff crash_points_checked == '
+                         'crash_points_total_of_enumerated_ops, which a run that exits 0 or 1 guarantees)',
                 'histories': 'sampled, not exhaustive'})
 
     def classify(self, op, before, after, seen):
@@ -963,7 +963,7 @@ PROCESS_READER_HISTORIES = 12  # thorough: random histories whose every read is 
 
 def crash_histories(tier):
     """Number of random histories whose operations get their crash points enumerated (the directed ones always do)."""
-    return 2 if tier == 'quick' else 16
+    return 2 if tier == 'quick' else 12
 
 
 def run(ctx):
